@@ -11,6 +11,11 @@
   the evaluation including prerequisites (NOT_CONFIGURED > STORE_ERROR > STALE > HEALTHY), and
   within one evaluation the store is queried at most once per distinct context key."
 
+  The status a provider returns is an arbitrary string in Go.  Unknown strings and "" have priority
+  0 like HEALTHY, among equal priorities the LATER status wins, and a resulting "" is reported as
+  no status; section 5 states "worst status seen" accordingly and keeps the older statements as
+  `_four_constants` corollaries.
+
   Statements; the proofs appeal to LDEval/Proofs/{Reach,Refine,StatusLog}.lean.
 -/
 import LDEval.Proofs.StatusLog
@@ -86,68 +91,177 @@ theorem no_generation (rec : SegRec) (env : Env) (s : Segment) (chain : List Str
 theorem query_once (env : Env) (f : Flag) : (evaluate env f).bsQueries.Nodup :=
   evaluate_bsQueries_nodup env f
 
-/-! ### 5. The reported status is the worst status seen -/
+/-! ### 5. The reported status is the worst status seen
 
-/-- (a) No status ⇒ the provider was never queried. -/
+In Go the status a `BigSegmentProvider` returns is an arbitrary string — one of the four constants,
+`"BOGUS"`, or `""` (`BSAnswer.status = none`).  `getBigSegmentsStatusPriority` gives every string
+other than STALE / STORE_ERROR / NOT_CONFIGURED the priority 0, and
+`computeUpdatedBigSegmentsStatus old new` keeps `old` only if its priority is STRICTLY higher.  So:
+
+  * the reported status has the maximal priority among the statuses seen (`status_ge_queried`,
+    `status_worst`);
+  * among the statuses of maximal priority it is the LAST one seen (`StatusSeen`, `status_worst`);
+  * a status `""` that ends up being the reported one is reported as NO status — the status can
+    disappear again (`Ex`: HEALTHY then `""`), so "no status ⇒ no query" and "once set it stays set"
+    are false in general.
+
+The older statements remain true for providers whose answers all carry one of the four constants
+(`AnswersFourConstants`; for most of them a non-empty status, `AnswersNonEmpty`, is enough): they
+are kept as `_four_constants` corollaries. -/
+
+/-- (a) No status ⇒ every status the provider returned so far had priority 0 (HEALTHY, an unknown
+string, or `""`).  The provider may well have been queried. -/
 theorem status_none_iff_untouched {env : Env} {st : St} (h : Reach env {} st)
-    (hs : st.status = none) : st.bsQueries = [] :=
-  reach_status_none_queries h hs
+    (hs : st.status = none) :
+    ∀ k ∈ st.bsQueries, ∃ p, env.bs = some p ∧ statusPriority (p.get k).status = 0 :=
+  reach_status_none_priority h hs
 
-/-- (a, converse direction) A query, the no-provider case and the no-generation case all set a
-status … -/
+/-- (a) for the four constants: no status ⇒ the provider was never queried. -/
+theorem status_none_iff_untouched_four_constants {env : Env} (h4 : AnswersFourConstants env)
+    {st : St} (h : Reach env {} st) (hs : st.status = none) : st.bsQueries = [] :=
+  reach_status_none_queries h4.nonEmpty h hs
+
+/-- (a, converse direction) What a fresh membership lookup does to the status: NOT_CONFIGURED
+without a provider, otherwise `computeUpdatedBigSegmentsStatus` of the old status and the answer
+(which is `""` again if the old status has priority 0 and the answer is `""`) … -/
 theorem bigSegMembership_status (env : Env) (key : String) (st : St)
-    (h : st.cache.lookup key = none) : (bigSegMembership env key st).2.status.isSome := by
+    (h : st.cache.lookup key = none) :
+    (bigSegMembership env key st).2.status =
+      match env.bs with
+      | none => some .notConfigured
+      | some p => updateStatus st.status (p.get key).status := by
   unfold bigSegMembership
   rw [h]
-  simp only
+  cases env.bs <;> rfl
+
+/-- … for the four constants that is always some status … -/
+theorem bigSegMembership_status_four_constants (env : Env) (h4 : AnswersFourConstants env)
+    (key : String) (st : St) (h : st.cache.lookup key = none) :
+    (bigSegMembership env key st).2.status.isSome := by
+  rw [bigSegMembership_status env key st h]
   split
   · rfl
-  · exact updateStatus_some_right_isSome _ _
+  · rename_i p hp
+    obtain ⟨s, hs, _⟩ := h4 p hp key
+    rw [hs]
+    exact updateStatus_some_right_isSome _ _
 
-/-- … and once set it stays set for the rest of the evaluation. -/
-theorem status_stays_some {env : Env} {a b : St} (h : Reach env a b) (ha : a.status.isSome) :
-    b.status.isSome :=
-  reach_status_some h ha
+/-- … and for the rest of the evaluation the priority of the status never decreases. -/
+theorem status_stays_some {env : Env} {a b : St} (h : Reach env a b) :
+    statusPriority a.status ≤ statusPriority b.status :=
+  reach_status_priority h
+
+/-- In particular a status of positive priority (STALE, STORE_ERROR, NOT_CONFIGURED) stays set. -/
+theorem status_stays_some_of_priority {env : Env} {a b : St} (h : Reach env a b)
+    (ha : 0 < statusPriority a.status) : b.status.isSome :=
+  reach_status_some_of_priority h ha
+
+/-- For the four constants: once set it stays set. -/
+theorem status_stays_some_four_constants {env : Env} (h4 : AnswersFourConstants env) {a b : St}
+    (h : Reach env a b) (ha : a.status.isSome) : b.status.isSome :=
+  reach_status_some h4.nonEmpty h ha
 
 /-- "Carries a status if an unbounded segment was evaluated for a context having its kind (or
-lacked a generation)": at any point of an evaluation, evaluating such a segment leaves a status
-(set now, or set when the membership was first fetched). -/
+lacked a generation)": at any point of an evaluation, evaluating such a segment leaves either
+NOT_CONFIGURED (no generation, no provider) or a state in which the provider has been asked for the
+context's key (now, or when the membership was first fetched) and the status has at least the
+priority of the provider's answer. -/
 theorem touched_status_some {rec : SegRec} {env : Env} (hrec : SegRecReach env rec) (s : Segment)
     (chain : List String) (st : St) (h : Reach env {} st) (hu : s.unbounded = true)
     (hc : chain.contains s.key = false)
     (hk : s.generation = none ∨ (env.ctx.keyByKind s.unboundedContextKind).isSome) :
-    (segBody rec env s chain st).2.status.isSome := by
+    (segBody rec env s chain st).2.status = some .notConfigured ∨
+      ∃ p key, env.bs = some p ∧ env.ctx.keyByKind s.unboundedContextKind = some key ∧
+        key ∈ (segBody rec env s chain st).2.bsQueries ∧
+        statusPriority (p.get key).status ≤ statusPriority (segBody rec env s chain st).2.status := by
   cases hg : s.generation with
-  | none => rw [no_generation rec env s chain st hu hg hc]; rfl
+  | none => left; rw [no_generation rec env s chain st hu hg hc]
   | some g =>
     rw [hg] at hk
     simp only [reduceCtorEq, false_or] at hk
     cases hkk : env.ctx.keyByKind s.unboundedContextKind with
     | none => rw [hkk] at hk; cases hk
     | some key =>
-      have hm : (bigSegMembership env key st).2.status.isSome := by
+      -- the state after the membership lookup
+      have hm : (bigSegMembership env key st).2.status = some .notConfigured ∨
+          ∃ p, env.bs = some p ∧ key ∈ (bigSegMembership env key st).2.bsQueries ∧
+            statusPriority (p.get key).status ≤
+              statusPriority (bigSegMembership env key st).2.status := by
         cases hl : st.cache.lookup key with
-        | none => exact bigSegMembership_status env key st hl
+        | none =>
+          have hst := bigSegMembership_status env key st hl
+          cases hbs : env.bs with
+          | none => left; rw [hst, hbs]
+          | some p =>
+            right
+            refine ⟨p, rfl, ?_, ?_⟩
+            · simp only [bigSegMembership, hl, hbs]
+              exact List.mem_append_right _ (List.mem_singleton.2 rfl)
+            · rw [hst, hbs]; exact statusPriority_updateStatus_right _ _
         | some m =>
+          right
+          obtain ⟨p, hp, _⟩ := (h.pconsistent (PConsistent.empty env)) key m hl
+          have hq : key ∈ st.bsQueries := by
+            rw [(h.qinv QInv.empty).1]
+            obtain ⟨l₁, l₂, hsplit, _⟩ := List.lookup_eq_some_iff.1 hl
+            rw [hsplit]; simp
+          obtain ⟨q, hq1, hq2⟩ := reach_status_ge_queried h key hq
+          have hqp : q = p := by rw [hq1] at hp; exact Option.some.inj hp
+          subst hqp
           simp only [bigSegMembership, hl]
-          rcases reach_cache_status h with hcache | hsome
-          · rw [hcache] at hl; cases hl
-          · exact hsome
+          exact ⟨q, hq1, hq, hq2⟩
+      have hfin : ∀ st1 st2 : St, Reach env st1 st2 →
+          (st1.status = some .notConfigured ∨
+            ∃ p, env.bs = some p ∧ key ∈ st1.bsQueries ∧
+              statusPriority (p.get key).status ≤ statusPriority st1.status) →
+          (st2.status = some .notConfigured ∨
+            ∃ p key', env.bs = some p ∧ some key = some key' ∧
+              key' ∈ st2.bsQueries ∧ statusPriority (p.get key').status ≤ statusPriority st2.status) := by
+        intro st1 st2 hr h1
+        rcases h1 with h1 | ⟨p, hp, hq, hle⟩
+        · exact .inl (reach_notConfigured hr h1)
+        · exact .inr ⟨p, key, hp, rfl, (reach_bsQueries_prefix hr).subset hq,
+            Nat.le_trans hle (reach_status_priority hr)⟩
       simp only [segBody, hc, hu, hg, hkk, Bool.false_eq_true, if_false, if_true]
       generalize bigSegMembership env key st = r at hm
       obtain ⟨m, st1⟩ := r
       simp only at hm ⊢
       split
-      · exact reach_status_some (segRules_reach hrec _ _ _ _) hm
+      · exact hfin _ _ (segRules_reach hrec _ _ _ _) hm
       · split
-        · exact hm
-        · exact reach_status_some (segRules_reach hrec _ _ _ _) hm
+        · exact hfin _ _ (.single (.memCheck st1 key (bigSegmentRef s))) hm
+        · exact hfin _ _
+            (Reach.head (.memCheck st1 key (bigSegmentRef s)) (segRules_reach hrec _ _ _ _)) hm
 
-/-- (b) The status is at least as bad as every status the provider returned. -/
+/-- For the four constants, evaluating such a segment leaves a status (set now, or set when the
+membership was first fetched). -/
+theorem touched_status_some_four_constants {rec : SegRec} {env : Env}
+    (h4 : AnswersFourConstants env) (hrec : SegRecReach env rec) (s : Segment)
+    (chain : List String) (st : St) (h : Reach env {} st) (hu : s.unbounded = true)
+    (hc : chain.contains s.key = false)
+    (hk : s.generation = none ∨ (env.ctx.keyByKind s.unboundedContextKind).isSome) :
+    (segBody rec env s chain st).2.status.isSome := by
+  rcases touched_status_some hrec s chain st h hu hc hk with h1 | ⟨p, key, hp, _, hq, _⟩
+  · rw [h1]; rfl
+  · have hr : Reach env {} (segBody rec env s chain st).2 := h.trans (segBody_reach hrec s chain st)
+    cases hs : (segBody rec env s chain st).2.status with
+    | some _ => rfl
+    | none =>
+      have := reach_status_none_queries h4.nonEmpty hr hs
+      rw [this] at hq; cases hq
+
+/-- (b) The status has at least the priority of every status the provider returned. -/
 theorem status_ge_queried {env : Env} {st : St} (h : Reach env {} st) :
     ∀ k ∈ st.bsQueries, ∃ p, env.bs = some p ∧
-      statusRank (some (p.get k).status) ≤ statusRank st.status :=
+      statusPriority (p.get k).status ≤ statusPriority st.status :=
   reach_status_ge_queried h
+
+/-- (b) for the four constants, in the rank form (`none` strictly below every status). -/
+theorem status_ge_queried_four_constants {env : Env} (h4 : AnswersFourConstants env) {st : St}
+    (h : Reach env {} st) :
+    ∀ k ∈ st.bsQueries, ∃ p, env.bs = some p ∧
+      statusRank (p.get k).status ≤ statusRank st.status :=
+  reach_status_rank_ge_queried h4.nonEmpty h
 
 /-! (c) and (d) are FALSE for the coarse relation `Reach`, whose `mergeStatus` primitive merges an
 *arbitrary* `old` status: -/
@@ -160,10 +274,13 @@ theorem reach_too_coarse (env : Env) :
 
 /-- (c), corrected: over the finer relation `Star (Prim0 env)` (which `evaluate` satisfies, see
 `evaluate_reach0`: the status merge after a prerequisite is the identity in the model), the status
-is one that was actually seen. -/
+is the worst one actually seen and the last one among equally bad ones (`StatusSeen`). -/
 theorem status_is_seen_corrected {env : Env} {st : St} (h : Star (Prim0 env) {} st) :
-    st.status = none ∨ st.status = some .notConfigured ∨
-      ∃ p k, env.bs = some p ∧ k ∈ st.bsQueries ∧ st.status = some (p.get k).status :=
+    (st.status = none ∧ st.bsQueries = []) ∨ st.status = some .notConfigured ∨
+      ∃ p pre k post, env.bs = some p ∧ st.bsQueries = pre ++ k :: post ∧
+        st.status = (p.get k).status ∧
+        (∀ k' ∈ pre, statusPriority (p.get k').status ≤ statusPriority st.status) ∧
+        (∀ k' ∈ post, statusPriority (p.get k').status < statusPriority st.status) :=
   star_status_seen h
 
 /-- (d), corrected in the same way. -/
@@ -174,8 +291,11 @@ theorem no_provider_not_configured_corrected {env : Env} {st : St} (hbs : env.bs
 /-- (c) for the states the evaluator actually reaches from the empty state. -/
 theorem status_is_seen_evalFlag (sf n : Nat) (env : Env) (f : Flag) (chain : List String) :
     let st := (evalFlag sf n env f chain {}).2
-    st.status = none ∨ st.status = some .notConfigured ∨
-      ∃ p k, env.bs = some p ∧ k ∈ st.bsQueries ∧ st.status = some (p.get k).status :=
+    (st.status = none ∧ st.bsQueries = []) ∨ st.status = some .notConfigured ∨
+      ∃ p pre k post, env.bs = some p ∧ st.bsQueries = pre ++ k :: post ∧
+        st.status = (p.get k).status ∧
+        (∀ k' ∈ pre, statusPriority (p.get k').status ≤ statusPriority st.status) ∧
+        (∀ k' ∈ post, statusPriority (p.get k').status < statusPriority st.status) :=
   star_status_seen (evalFlag_freach sf n env f chain {})
 
 /-- (d) for the states the evaluator actually reaches from the empty state. -/
@@ -188,28 +308,112 @@ theorem no_provider_not_configured_evalFlag (sf n : Nat) (env : Env) (f : Flag)
 /-- The finer relation is included in the coarse one, so (a), (b) and query economy hold of it. -/
 theorem star_reach {env : Env} {a b : St} (h : Star (Prim0 env) a b) : Reach env a b := h.toReach
 
-/-- The status `evaluate` reports is the worst status seen: at least as bad as the status returned
-for every key queried (including inside prerequisites — `bsQueries` records them all), and itself
-either absent, NOT_CONFIGURED, or the status returned for one of the queried keys. -/
+/-- The status `evaluate` reports is the worst status seen, and the last one of the worst:
+its priority is at least that of the status returned for every key queried (including inside
+prerequisites — `bsQueries` records them all; `""` has priority 0), and it is either absent with
+nothing queried, or NOT_CONFIGURED, or the status returned for one of the queried keys `k` such that
+every key queried LATER got a status of strictly lower priority.  If that status is `""`, what is
+reported is "no status". -/
 theorem status_worst (env : Env) (f : Flag) :
     let o := evaluate env f
     let s := o.result.detail.reason.bigSegmentsStatus
     (∀ k ∈ o.bsQueries, ∃ p, env.bs = some p ∧
-        statusRank (some (p.get k).status) ≤ statusRank s) ∧
-    (s = none ∨ s = some .notConfigured ∨
-      ∃ p k, env.bs = some p ∧ k ∈ o.bsQueries ∧ s = some (p.get k).status) := by
+        statusPriority (p.get k).status ≤ statusPriority s) ∧
+    ((s = none ∧ o.bsQueries = []) ∨ s = some .notConfigured ∨
+      ∃ p pre k post, env.bs = some p ∧ o.bsQueries = pre ++ k :: post ∧ s = (p.get k).status ∧
+        (∀ k' ∈ pre, statusPriority (p.get k').status ≤ statusPriority s) ∧
+        (∀ k' ∈ post, statusPriority (p.get k').status < statusPriority s)) := by
   obtain ⟨st, hr, _, _, _, _, hq, _, hs⟩ := evaluate_reach0 env f
   simp only
   rw [hq, hs]
   exact ⟨reach_status_ge_queried hr.toReach, star_status_seen hr⟩
 
-/-- No status reported ⇒ the provider was not queried at all. -/
+/-- The exact value: unless it is NOT_CONFIGURED, the reported status is Go's
+`computeUpdatedBigSegmentsStatus` folded from `""` over the provider's answers in query order. -/
+theorem status_exact (env : Env) (f : Flag) :
+    let o := evaluate env f
+    let s := o.result.detail.reason.bigSegmentsStatus
+    s = some .notConfigured ∨ s = foldStatus (o.bsQueries.map (answerOf env)) := by
+  obtain ⟨st, hr, _, _, _, _, hq, _, hs⟩ := evaluate_reach0 env f
+  simp only
+  rw [hq, hs]
+  exact star_status_fold hr
+
+/-- Among the four constants the priority determines the status. -/
+theorem priority_injective_on_constants {a b : Status} (ha : a.isConstant = true)
+    (hb : b.isConstant = true) (h : a.priority = b.priority) : a = b := by
+  cases a <;> cases b <;> simp_all [Status.priority, Status.isConstant]
+
+/-- The old statement of `status_worst`, for the four constants: the reported status is at least as
+bad (rank: `none` < HEALTHY < STALE < STORE_ERROR < NOT_CONFIGURED) as the status returned for every
+key queried, and is itself either absent, NOT_CONFIGURED, or the status returned for one of the
+queried keys — so it is THE worst status seen: any answer that is as bad is equal to it. -/
+theorem status_worst_four_constants (env : Env) (h4 : AnswersFourConstants env) (f : Flag) :
+    let o := evaluate env f
+    let s := o.result.detail.reason.bigSegmentsStatus
+    (∀ k ∈ o.bsQueries, ∃ p, env.bs = some p ∧
+        statusRank (p.get k).status ≤ statusRank s) ∧
+    (s = none ∨ s = some .notConfigured ∨
+      ∃ p k, env.bs = some p ∧ k ∈ o.bsQueries ∧ s = (p.get k).status) ∧
+    (∀ p k, env.bs = some p → k ∈ o.bsQueries → statusRank s ≤ statusRank (p.get k).status →
+      s = (p.get k).status) := by
+  obtain ⟨st, hr, _, _, _, _, hq, _, hs⟩ := evaluate_reach0 env f
+  simp only
+  rw [hq, hs]
+  have hge := reach_status_rank_ge_queried h4.nonEmpty hr.toReach
+  refine ⟨hge, (star_status_seen hr).weaken, ?_⟩
+  intro p k hp hk hle
+  obtain ⟨q, hq1, hq2⟩ := hge k hk
+  have hqp : q = p := by rw [hq1] at hp; exact Option.some.inj hp
+  subst hqp
+  have heq : statusRank st.status = statusRank (q.get k).status := Nat.le_antisymm hle hq2
+  obtain ⟨a, ha, hac⟩ := h4 q hq1 k
+  rw [ha] at heq ⊢
+  rcases (star_status_seen hr).weaken with h1 | h1 | ⟨p', k', hp', _, h1⟩
+  · rw [h1] at heq; simp [statusRank] at heq
+  · rw [h1] at heq ⊢
+    simp only [statusRank] at heq
+    rw [priority_injective_on_constants (a := .notConfigured) rfl hac (by omega)]
+  · have hqp : p' = q := by rw [hq1] at hp'; exact (Option.some.inj hp').symm
+    subst hqp
+    obtain ⟨b, hb, hbc⟩ := h4 p' hq1 k'
+    rw [h1, hb] at heq ⊢
+    simp only [statusRank] at heq
+    rw [priority_injective_on_constants hbc hac (by omega)]
+
+/-- No status reported ⇒ NOT_CONFIGURED was never recorded and either the provider was not queried
+at all or its LAST answer was `""` and no earlier answer had a positive priority. -/
 theorem status_none_no_query (env : Env) (f : Flag)
+    (h : (evaluate env f).result.detail.reason.bigSegmentsStatus = none) :
+    (evaluate env f).bsQueries = [] ∨
+    ∃ p k, env.bs = some p ∧ (evaluate env f).bsQueries.getLast? = some k ∧
+      (p.get k).status = none ∧
+      ∀ k' ∈ (evaluate env f).bsQueries, statusPriority (p.get k').status = 0 := by
+  obtain ⟨hge, hseen⟩ := status_worst env f
+  rw [h] at hge hseen
+  rcases hseen with ⟨_, h1⟩ | h1 | ⟨p, pre, k, post, hp, hq, hs, _, hpost⟩
+  · exact .inl h1
+  · cases h1
+  · right
+    have hpost' : post = [] := by
+      cases post with
+      | nil => rfl
+      | cons x xs => exact absurd (hpost x List.mem_cons_self) (Nat.not_lt_zero _)
+    subst hpost'
+    refine ⟨p, k, hp, by rw [hq]; exact List.getLast?_concat, hs.symm, ?_⟩
+    intro k' hk'
+    obtain ⟨q, hq1, hq2⟩ := hge k' hk'
+    have hqp : q = p := by rw [hq1] at hp; exact Option.some.inj hp
+    subst hqp
+    exact Nat.le_zero.1 hq2
+
+/-- For the four constants: no status reported ⇒ the provider was not queried at all. -/
+theorem status_none_no_query_four_constants (env : Env) (h4 : AnswersFourConstants env) (f : Flag)
     (h : (evaluate env f).result.detail.reason.bigSegmentsStatus = none) :
     (evaluate env f).bsQueries = [] := by
   obtain ⟨st, hr, _, _, _, _, hq, _, hs⟩ := evaluate_reach0 env f
   rw [hq]; rw [hs] at h
-  exact reach_status_none_queries hr.toReach h
+  exact reach_status_none_queries h4.nonEmpty hr.toReach h
 
 /-- No provider ⇒ the reported status is absent or NOT_CONFIGURED. -/
 theorem no_provider_status (env : Env) (f : Flag) (hbs : env.bs = none) :
@@ -226,10 +430,101 @@ theorem status_some_only_if (env : Env) (f : Flag)
     (h : (evaluate env f).result.detail.reason.bigSegmentsStatus ≠ none) :
     (evaluate env f).bsQueries ≠ [] ∨
     (evaluate env f).result.detail.reason.bigSegmentsStatus = some .notConfigured := by
-  rcases (status_worst env f).2 with h1 | h1 | ⟨p, k, _, hk, _⟩
+  rcases (status_worst env f).2 with ⟨h1, _⟩ | h1 | ⟨p, pre, k, post, _, hq, _⟩
   · exact absurd h1 h
   · exact .inr h1
-  · exact .inl (List.ne_nil_of_mem hk)
+  · left
+    rw [hq]; simp
+
+/-! ### 5b. `computeUpdatedBigSegmentsStatus`, old × new
+
+The complete table (rows `old`, columns `new`; `none` is `""`; `other` is any unknown string).
+`old` survives exactly when its priority is strictly higher. -/
+
+section Table
+variable (s t : String)
+
+example : updateStatus none none = none := rfl
+example : updateStatus none (some .healthy) = some .healthy := rfl
+example : updateStatus none (some .stale) = some .stale := rfl
+example : updateStatus none (some .storeError) = some .storeError := rfl
+example : updateStatus none (some .notConfigured) = some .notConfigured := rfl
+example : updateStatus none (some (.other t)) = some (.other t) := rfl
+
+example : updateStatus (some .healthy) none = none := rfl
+example : updateStatus (some .healthy) (some .healthy) = some .healthy := rfl
+example : updateStatus (some .healthy) (some .stale) = some .stale := rfl
+example : updateStatus (some .healthy) (some .storeError) = some .storeError := rfl
+example : updateStatus (some .healthy) (some .notConfigured) = some .notConfigured := rfl
+example : updateStatus (some .healthy) (some (.other t)) = some (.other t) := rfl
+
+example : updateStatus (some (.other s)) none = none := rfl
+example : updateStatus (some (.other s)) (some .healthy) = some .healthy := rfl
+example : updateStatus (some (.other s)) (some .stale) = some .stale := rfl
+example : updateStatus (some (.other s)) (some .storeError) = some .storeError := rfl
+example : updateStatus (some (.other s)) (some .notConfigured) = some .notConfigured := rfl
+example : updateStatus (some (.other s)) (some (.other t)) = some (.other t) := rfl
+
+example : updateStatus (some .stale) none = some .stale := rfl
+example : updateStatus (some .stale) (some .healthy) = some .stale := rfl
+example : updateStatus (some .stale) (some .stale) = some .stale := rfl
+example : updateStatus (some .stale) (some .storeError) = some .storeError := rfl
+example : updateStatus (some .stale) (some .notConfigured) = some .notConfigured := rfl
+example : updateStatus (some .stale) (some (.other t)) = some .stale := rfl
+
+example : updateStatus (some .storeError) none = some .storeError := rfl
+example : updateStatus (some .storeError) (some .healthy) = some .storeError := rfl
+example : updateStatus (some .storeError) (some .stale) = some .storeError := rfl
+example : updateStatus (some .storeError) (some .storeError) = some .storeError := rfl
+example : updateStatus (some .storeError) (some .notConfigured) = some .notConfigured := rfl
+example : updateStatus (some .storeError) (some (.other t)) = some .storeError := rfl
+
+example : updateStatus (some .notConfigured) none = some .notConfigured := rfl
+example : updateStatus (some .notConfigured) (some .healthy) = some .notConfigured := rfl
+example : updateStatus (some .notConfigured) (some .stale) = some .notConfigured := rfl
+example : updateStatus (some .notConfigured) (some .storeError) = some .notConfigured := rfl
+example : updateStatus (some .notConfigured) (some .notConfigured) = some .notConfigured := rfl
+example : updateStatus (some .notConfigured) (some (.other t)) = some .notConfigured := rfl
+
+end Table
+
+/-- The wire format: the four constants, `""` = no status, anything else is `other`; `other s`
+prints as `s`. -/
+example : Status.ofString "HEALTHY" = some .healthy ∧ Status.ofString "STALE" = some .stale ∧
+    Status.ofString "STORE_ERROR" = some .storeError ∧
+    Status.ofString "NOT_CONFIGURED" = some .notConfigured ∧ Status.ofString "" = none ∧
+    Status.ofString "BOGUS" = some (.other "BOGUS") ∧ (Status.other "BOGUS").toString = "BOGUS" := by
+  decide
+
+/-- `Status.ofString` only produces canonical values, and printing them gives the string back. -/
+theorem ofString_canonical (s : String) : ∀ x, Status.ofString s = some x → x.Canonical := by
+  intro x hx
+  unfold Status.ofString at hx
+  split at hx
+  · cases hx
+  · split at hx
+    · cases hx; trivial
+    · split at hx
+      · cases hx; trivial
+      · split at hx
+        · cases hx; trivial
+        · split at hx
+          · cases hx; trivial
+          · cases hx; exact ⟨‹_›, ‹_›, ‹_›, ‹_›, ‹_›⟩
+
+theorem optToString_ofString (s : String) : Status.optToString (Status.ofString s) = s := by
+  unfold Status.ofString
+  split
+  · rename_i h; rw [h]; rfl
+  · split
+    · rename_i h; rw [h]; rfl
+    · split
+      · rename_i h; rw [h]; rfl
+      · split
+        · rename_i h; rw [h]; rfl
+        · split
+          · rename_i h; rw [h]; rfl
+          · rfl
 
 /-! ### 6. Non-vacuity: concrete evaluations -/
 
@@ -249,8 +544,8 @@ def segNoGen : Segment :=
   { key := "segNoGen", unbounded := true, unboundedContextKind := "user", included := ["u1"] }
 
 def prov : BSProvider :=
-  { table := [("u1", { membership := some [("seg.g1", true), ("seg2.g7", false)], status := .stale }),
-              ("o1", { membership := none, status := .storeError })] }
+  { table := [("u1", { membership := some [("seg.g1", true), ("seg2.g7", false)], status := some .stale }),
+              ("o1", { membership := none, status := some .storeError })] }
 
 def store : Store :=
   Store.ofLists
@@ -324,6 +619,49 @@ example :
     o.result.detail.reason.kind = .prereqFailed ∧
     o.result.detail.reason.bigSegmentsStatus = some .storeError ∧ o.bsQueries = ["o1"] := by decide
 
+/-! Arbitrary status strings.  `flagOn ["seg", "segOrg"]` for the multi-kind context queries the
+provider for `u1` (included in `seg` ⇒ the clause matches) and then for `o1`. -/
+
+def provWith (first second : Option Status) : BSProvider :=
+  { table := [("u1", { membership := some [("seg.g1", true)], status := first }),
+              ("o1", { membership := none, status := second })] }
+
+/-- HEALTHY then `"BOGUS"`: equal priority 0, the later one wins — BOGUS is reported. -/
+example :
+    let o := evaluate (env (some (provWith (some .healthy) (some (.other "BOGUS")))) (.multi [user, org]))
+      (flagOn ["seg", "segOrg"])
+    o.bsQueries = ["u1", "o1"] ∧
+    o.result.detail.reason.bigSegmentsStatus = some (.other "BOGUS") := by decide
+
+/-- HEALTHY then `""`: HEALTHY has priority 0, so it is replaced by `""` — NO status is reported
+although the provider was queried twice. -/
+example :
+    let o := evaluate (env (some (provWith (some .healthy) none)) (.multi [user, org]))
+      (flagOn ["seg", "segOrg"])
+    o.bsQueries = ["u1", "o1"] ∧ o.result.detail.reason.bigSegmentsStatus = none := by decide
+
+/-- STALE then `""`: STALE has priority 1 > 0 and survives. -/
+example :
+    let o := evaluate (env (some (provWith (some .stale) none)) (.multi [user, org]))
+      (flagOn ["seg", "segOrg"])
+    o.bsQueries = ["u1", "o1"] ∧ o.result.detail.reason.bigSegmentsStatus = some .stale := by decide
+
+/-- `"BOGUS"` then HEALTHY reports HEALTHY; a single `""` reports nothing; `"BOGUS"` then STALE then
+nothing else reports STALE. -/
+example :
+    (evaluate (env (some (provWith (some (.other "BOGUS")) (some .healthy))) (.multi [user, org]))
+      (flagOn ["seg", "segOrg"])).result.detail.reason.bigSegmentsStatus = some .healthy ∧
+    (evaluate (env (some (provWith none none)) (.single user))
+      (flagOn ["seg"])).result.detail.reason.bigSegmentsStatus = none ∧
+    (evaluate (env (some (provWith none none)) (.single user)) (flagOn ["seg"])).bsQueries = ["u1"] ∧
+    (evaluate (env (some (provWith (some (.other "BOGUS")) (some .stale))) (.multi [user, org]))
+      (flagOn ["seg", "segOrg"])).result.detail.reason.bigSegmentsStatus = some .stale := by decide
+
+/-- The same three on the level of `computeUpdatedBigSegmentsStatus`. -/
+example : foldStatus [some .healthy, some (.other "BOGUS")] = some (.other "BOGUS") ∧
+    foldStatus [some .healthy, none] = none ∧ foldStatus [some .stale, none] = some .stale := by
+  decide
+
 end Ex
 
 end LD.C11
@@ -345,3 +683,13 @@ end LD.C11
 #print axioms LD.C11.status_some_only_if
 #print axioms LD.C11.status_none_no_query
 #print axioms LD.C11.no_provider_status
+#print axioms LD.C11.bigSegMembership_status
+#print axioms LD.C11.status_stays_some
+#print axioms LD.C11.status_exact
+#print axioms LD.C11.status_none_iff_untouched_four_constants
+#print axioms LD.C11.bigSegMembership_status_four_constants
+#print axioms LD.C11.status_stays_some_four_constants
+#print axioms LD.C11.touched_status_some_four_constants
+#print axioms LD.C11.status_ge_queried_four_constants
+#print axioms LD.C11.status_worst_four_constants
+#print axioms LD.C11.status_none_no_query_four_constants
